@@ -136,7 +136,7 @@ fn absolutize_relative_token<'a>(
                 absolute_char_start: iso_literal_extraction_span.start
                     + relative_token.location.span.start
                     + *iterated_so_far_within_token,
-                len: line_text.len() as u32,
+                len: line_text.encode_utf16().count() as u32,
                 semantic_token: relative_token.item,
             };
             *iterated_so_far_within_token += line_text.len() as u32;
@@ -169,14 +169,13 @@ fn convert_absolute_token_to_lsp_token<'a>(
 }
 
 pub fn delta_line_delta_start(text: &str) -> (u32, u32) {
-    let mut last_line_break_index = 0;
-    let mut line_break_count = 0;
-    for (index, char) in text.chars().enumerate() {
-        if char == '\n' {
-            line_break_count += 1;
-            last_line_break_index = index as u32 + 1;
-        }
-    }
+    // byte index just past the last line break
+    let last_line_start = text.rfind('\n').map_or(0, |index| index + 1);
+    let line_break_count = text[..last_line_start].matches('\n').count() as u32;
 
-    (line_break_count, text.len() as u32 - last_line_break_index)
+    // LSP columns and lengths count UTF-16 code units, not bytes or chars
+    (
+        line_break_count,
+        text[last_line_start..].encode_utf16().count() as u32,
+    )
 }
